@@ -101,8 +101,13 @@ func (V *Verifier) useSpecFun(fc *FuncCtx, sf *SpecFunc, sym string, sorts []str
 	var params []string
 	for _, p := range sf.Params {
 		if p.Type == "bytes" {
-			params = append(params, "(p_"+p.Name+" (Array Int Int))", "(p_"+p.Name+"_len Int)")
-			bind[p.Name] = mkString(nil, "p_"+p.Name, "0", "p_"+p.Name+"_len")
+			params = append(params, "(p_"+p.Name+" (Array Int Int))", "(p_"+p.Name+"_off Int)")
+			if specUsesLen(sf, p.Name) {
+				params = append(params, "(p_"+p.Name+"_len Int)")
+				bind[p.Name] = mkString(nil, "p_"+p.Name, "p_"+p.Name+"_off", "p_"+p.Name+"_len")
+			} else {
+				bind[p.Name] = mkString(nil, "p_"+p.Name, "p_"+p.Name+"_off", "0")
+			}
 			continue
 		}
 		srt := specSort(p.Type)
@@ -170,6 +175,22 @@ func (V *Verifier) vcText(ob *Obligation, withModel bool) string {
 	for _, f := range ob.Facts {
 		b.WriteString("(assert " + f + ")\n")
 	}
+	if ob.fc != nil {
+		// definitions of canonical sequence views that this VC mentions (transitively)
+		full := text
+		done := map[string]bool{}
+		for changed := true; changed; {
+			changed = false
+			for _, vd := range ob.fc.viewDefs {
+				if !done[vd[0]] && strings.Contains(full, vd[0]) {
+					done[vd[0]] = true
+					full += vd[1]
+					b.WriteString("(assert " + vd[1] + ")\n")
+					changed = true
+				}
+			}
+		}
+	}
 	b.WriteString("(assert (not " + ob.Goal + "))\n(check-sat)\n")
 	if withModel && len(ob.Inputs) > 0 {
 		var ts []string
@@ -213,6 +234,9 @@ func runSolver(sp solverSpec, file string, timeoutS int) (verdict string, out st
 	}
 	if strings.Contains(out, "timeout") || ctx.Err() != nil {
 		return "timeout", out, secs
+	}
+	if strings.Contains(out, "error") {
+		fmt.Fprintf(os.Stderr, "SOLVER-ERROR %s on %s: %s\n", sp.name, file, firstLines(out, 2))
 	}
 	return "error", out, secs
 }
